@@ -93,7 +93,7 @@ Proof.
 Qed.
 
 (* refuted: a failing semantic_analysis (raises while statement 1 is analysed) reads the other call's dataset_output *)
-Definition pSemErr : prog := prog_of_trace gmap_impl 1%Z [TParse; TRegSet; TDsOutSet; TVcDs; TRaise].
+Definition pSemErr : prog := prog_of_trace gmap_impl 1%Z [TParse; TRegSet; TDsOutSet; TVcDs; TRaise; TDsOutClear].
 Theorem C17_dataset_output_race_refuted :
   exists sched, finished sched (two pSemErr pB) 0 = true /\ finished sched (two pSemErr pB) 1 = true /\
                 obs_of sched (two pSemErr pB) 0 <> solo_result zero_store pSemErr /\ In (GDsOut, 2%Z) (obs_of sched (two pSemErr pB) 0).
